@@ -22,6 +22,7 @@ import (
 	"bytes"
 	"context"
 	"encoding/json"
+	"errors"
 	"flag"
 	"fmt"
 	"io"
@@ -44,7 +45,10 @@ import (
 	"go.uber.org/zap/zapcore"
 	"golang.org/x/exp/slog"
 
+	"github.com/go-logr/logr"
+
 	"github.com/ARM-software/golang-utils/utils/logs"
+	"github.com/ARM-software/golang-utils/utils/logs/logrimp"
 
 	"verif/harness/internal/h"
 )
@@ -241,12 +245,13 @@ type sink struct {
 	format string // plain | std | async | json | embedded
 	read   func() []byte
 	// which messages this sink must hold (required) and may hold (allowed)
-	required func(mid) bool
-	allowed  func(mid) bool
-	foreign  *regexp.Regexp // lines that are not messages but legitimate
-	src      string         // logger source expected in the prefix (std / async formats)
-	noLevel  bool           // the severity label is not checked (hclogr maps logr's V(0) to hclog's Error level)
-	obs      []mid          // filled by parse
+	required  func(mid) bool
+	allowed   func(mid) bool
+	foreign   *regexp.Regexp                // lines that are not messages but legitimate
+	src       string                        // logger source expected in the prefix (std / async formats)
+	lineCheck func(ln string, m mid) string // extra per-line demand (e.g. the line carries its own logger's source); "" = fine
+	noLevel   bool                          // the severity label is not checked (hclogr maps logr's V(0) to hclog's Error level)
+	obs       []mid                         // filled by parse
 }
 
 var (
@@ -350,6 +355,11 @@ func (s *sink) parse(seed int64) (corrupt []string, unexpected []string) {
 				continue
 			}
 		}
+		if s.lineCheck != nil {
+			if msg := s.lineCheck(ln, id); msg != "" {
+				unexpected = append(unexpected, msg+": "+clip(ln))
+			}
+		}
 		s.obs = append(s.obs, id)
 	}
 	return
@@ -437,7 +447,8 @@ type built struct {
 	async    bool
 	noSink   bool
 	overlaps func() int
-	Ls       []logs.Loggers // several instances of the same constructor alive at once: producer p uses Ls[p % len(Ls)]
+	srcFor   func(p, k int) string // the log source a producer sets (default: srcA / srcB)
+	Ls       []logs.Loggers        // several instances of the same constructor alive at once: producer p uses Ls[p % len(Ls)]
 }
 
 func all(mid) bool       { return true }
@@ -611,6 +622,15 @@ func buildSimple(kind string, sc Scenario, idx int) (logs.Loggers, []*sink, erro
 			return nil, nil, err
 		}
 		return l, []*sink{byLevel(jsonSinkFromRec(fmt.Sprintf("slog#%d@%s", idx, sc.Level), w), sl.Enabled(context.Background(), slog.LevelInfo), sl.Enabled(context.Background(), slog.LevelError))}, nil
+	case "logrquiet":
+		// logr adapter over logrimp's quiet logr logger (errors only) over zap
+		w := &recWriter{}
+		core := zapcore.NewCore(zapcore.NewJSONEncoder(zap.NewProductionEncoderConfig()), zapcore.Lock(zapcore.AddSync(w)), zap.DebugLevel)
+		l, err := logs.NewLogrLogger(logrimp.NewQuietLogger(logrimp.NewZapLogger(zap.New(core))), "lsrc")
+		if err != nil {
+			return nil, nil, err
+		}
+		return l, []*sink{byLevel(jsonSinkFromRec(fmt.Sprintf("logrquiet#%d", idx), w), false, true)}, nil
 	case "noop":
 		l, err := logs.NewNoopLogger("lsrc")
 		return l, nil, err
@@ -734,6 +754,58 @@ func build(sc Scenario) (*built, error) {
 		s.required = none
 		b.sinks = []*sink{s}
 		b.closeFn = func() { _ = l.Close() }
+	case "shared":
+		// TWO adapters with different logger sources built from ONE underlying logr.Logger: no source may leak from
+		// one into the other's messages
+		w := &recWriter{}
+		var x logr.Logger
+		quiet, isHclog := false, false
+		backend := sc.Members[0]
+		if strings.HasPrefix(backend, "quiet") {
+			quiet, backend = true, strings.TrimPrefix(backend, "quiet")
+		}
+		switch backend {
+		case "zap":
+			x = logrimp.NewZapLogger(zap.New(zapcore.NewCore(zapcore.NewJSONEncoder(zap.NewProductionEncoderConfig()), zapcore.Lock(zapcore.AddSync(w)), zap.DebugLevel)))
+		case "logrus":
+			ll := logrus.New()
+			ll.SetOutput(w)
+			ll.SetFormatter(&logrus.JSONFormatter{})
+			ll.SetLevel(logrus.DebugLevel)
+			x = logrimp.NewLogrusLogger(ll)
+		case "hclog":
+			isHclog = true
+			x = logrimp.NewHclogLogger(hclog.New(&hclog.LoggerOptions{Output: w, JSONFormat: true, Level: hclog.Debug}))
+		case "slog":
+			x = logrimp.NewSlogLogger(slog.New(slog.NewJSONHandler(w, &slog.HandlerOptions{Level: slog.LevelDebug})))
+		default:
+			return nil, fmt.Errorf("unknown shared back end %q", backend)
+		}
+		if quiet {
+			x = logrimp.NewQuietLogger(x)
+		}
+		markers := []string{"ALPHA#", "BETA#"}
+		for _, mk := range markers {
+			l, err := logs.NewLogrLogger(x, mk)
+			if err != nil {
+				return nil, err
+			}
+			b.Ls = append(b.Ls, l)
+		}
+		b.L = b.Ls[0]
+		b.srcFor = func(p, k int) string { return fmt.Sprintf("%ssrc%d", markers[p%2], k%2) }
+		sk := byLevel(jsonSinkFromRec("shared-"+sc.Members[0], w), !quiet, true)
+		sk.noLevel = isHclog
+		sk.lineCheck = func(ln string, m mid) string {
+			if strings.Contains(ln, markers[1-m.P%2]) {
+				return fmt.Sprintf("message of logger %s carries the source of logger %s", markers[m.P%2], markers[1-m.P%2])
+			}
+			if !quiet && !strings.Contains(ln, markers[m.P%2]) { // (logrimp's quiet logger attaches no values at all)
+				return fmt.Sprintf("message of logger %s does not carry its source", markers[m.P%2])
+			}
+			return ""
+		}
+		b.sinks = []*sink{sk}
 	case "twin", "twincomp":
 		// two instances of the SAME constructor alive at once; twin: producer p uses instance p%2 and each sink must
 		// hold exactly the messages sent to ITS logger; twincomp: both are members of one composite and each sink
@@ -893,7 +965,11 @@ func runOnce(sc Scenario, res *WResult, emitCase bool) (ob runObs) {
 				case opErr:
 					L.LogError(token(sc.Seed, mid{p, 'e', o.K}))
 				case opSetSource:
-					_ = L.SetLogSource([]string{"srcA", "srcB"}[(p+o.K)%2])
+					src := []string{"srcA", "srcB"}[(p+o.K)%2]
+					if b.srcFor != nil {
+						src = b.srcFor(p, o.K)
+					}
+					_ = L.SetLogSource(src)
 				case opAppend:
 					_ = b.multi.Append(b.appendL[o.K])
 				}
@@ -1681,6 +1757,111 @@ func runAlias(sc Scenario, res *WResult) {
 }
 
 // ---------------------------------------------------------------------------------------------------------------
+// composite rendering (sequential): members must not influence each other.  Messages whose arguments contain / end
+// with line endings, several arguments, error values; members of different kinds in a given ORDER.  Oracle: the
+// content of every member of the composite = the content of a fresh logger of the same kind used ALONE with the
+// same original arguments (time stamps removed).
+
+type renderMsg struct {
+	err  bool
+	args []interface{}
+}
+
+func renderMessages() []renderMsg {
+	return []renderMsg{
+		{false, []interface{}{"m1 first line", "second line\n"}},
+		{false, []interface{}{"m2 progress: 10%\r\n"}},
+		{true, []interface{}{"m3 boom\n\n"}},
+		{false, []interface{}{"m4 multi\nline\nbody"}},
+		{false, []interface{}{"m5 a", 1, "b\n", 2.5}},
+		{false, []interface{}{"\n"}},
+		{true, []interface{}{"m7 trailing cr\r"}},
+		{true, []interface{}{errors.New("m8 failure\n"), ": context\n"}},
+		{false, []interface{}{"m9 plain"}},
+		{true, []interface{}{"m10 last\r\n", "tail\n"}},
+	}
+}
+
+var dateRe = regexp.MustCompile(`\d{4}/\d{2}/\d{2} \d{2}:\d{2}:\d{2}`)
+
+func normaliseSink(sk *sink) string {
+	raw := string(sk.read())
+	if sk.format != "json" {
+		return dateRe.ReplaceAllString(raw, "<T>")
+	}
+	var out []string
+	for _, ln := range strings.Split(raw, "\n") {
+		var obj map[string]any
+		if json.Unmarshal([]byte(ln), &obj) != nil {
+			out = append(out, ln)
+			continue
+		}
+		for _, k := range []string{"ts", "time", "ctime", "@timestamp"} {
+			delete(obj, k)
+		}
+		bs, _ := json.Marshal(obj)
+		out = append(out, string(bs))
+	}
+	return strings.Join(out, "\n")
+}
+
+func runRender(sc Scenario, res *WResult) {
+	res.Evals++
+	feed := func(l logs.Loggers) {
+		for _, m := range renderMessages() {
+			args := append([]interface{}(nil), m.args...)
+			if m.err {
+				l.LogError(args...)
+			} else {
+				l.Log(args...)
+			}
+		}
+	}
+	var members []logs.Loggers
+	var msinks [][]*sink
+	for i, k := range sc.Members {
+		l, ss, err := buildSimple(k, sc, i)
+		if err != nil {
+			res.fail("worker-crash:render", err.Error(), sc)
+			return
+		}
+		members = append(members, l)
+		msinks = append(msinks, ss)
+	}
+	var comp logs.Loggers
+	var err error
+	if sc.Ctor == "multi" {
+		comp, err = logs.NewMultipleLoggers("lsrc", members...)
+	} else {
+		comp, err = logs.NewCombinedLoggers(members...)
+	}
+	if err != nil {
+		res.fail("worker-crash:render", err.Error(), sc)
+		return
+	}
+	feed(comp)
+	for i, k := range sc.Members {
+		solo, ss, err := buildSimple(k, sc, 100+i)
+		if err != nil {
+			res.fail("worker-crash:render", err.Error(), sc)
+			return
+		}
+		if sc.Ctor == "multi" {
+			_ = solo.SetLoggerSource("lsrc")
+		}
+		feed(solo)
+		for j := range ss {
+			want, got := normaliseSink(ss[j]), normaliseSink(msinks[i][j])
+			if want != got {
+				res.fail("corrupt:composite-render", fmt.Sprintf("%s of %v: member %d (%s) holds %q but the same logger used alone holds %q", sc.Ctor, sc.Members, i, k, clip(got), clip(want)), sc)
+			}
+		}
+	}
+	res.Counts["render:"+sc.Ctor]++
+	res.Distinct = append(res.Distinct, fmt.Sprintf("render|%s|%v", sc.Ctor, sc.Members))
+}
+
+// ---------------------------------------------------------------------------------------------------------------
 // worker
 
 func runScenario(sc Scenario, res *WResult) {
@@ -1690,6 +1871,10 @@ func runScenario(sc Scenario, res *WResult) {
 	}
 	if sc.Kind == "alias" {
 		runAlias(sc, res)
+		return
+	}
+	if sc.Kind == "render" {
+		runRender(sc, res)
 		return
 	}
 	if sc.Kind == "ringgap" {
@@ -1927,8 +2112,35 @@ func scenarios(r *h.Run) map[string][]Scenario {
 			add(Scenario{Kind: k, Producers: 2 + rng.Intn(5), Msgs: 20 + rng.Intn(20), Mix: "all", Level: lvl})
 		}
 	}
+	// two adapters over ONE shared underlying logr.Logger
+	for _, be := range []string{"zap", "logrus", "hclog", "slog", "quietzap", "quietlogrus", "quietslog"} {
+		add(Scenario{Kind: "shared", Producers: 2, Msgs: 40, Mix: "all", Members: []string{be}})
+		add(Scenario{Kind: "shared", Producers: 4 + 2*rng.Intn(3), Msgs: 20 + rng.Intn(20), Mix: "all", Members: []string{be}})
+	}
+	for _, mx := range []string{"both", "all"} {
+		add(Scenario{Kind: "logrquiet", Producers: 2 + rng.Intn(7), Msgs: 30 + rng.Intn(30), Mix: mx})
+	}
+	// composite rendering: members of different kinds in every order
+	for _, triple := range [][]string{{"json", "string", "plainstring"}, {"json", "zap", "quiet"}, {"logrus", "json", "slog"}, {"hclog", "json", "fileonly"}, {"json", "string"}, {"logrquiet", "json", "string"}} {
+		var perm func(cur, rest []string)
+		perm = func(cur, rest []string) {
+			if len(rest) == 0 {
+				for _, ctor := range []string{"combined", "multi"} {
+					sc := Scenario{Kind: "render", Ctor: ctor, Members: append([]string(nil), cur...)}
+					sc.Seed = rng.Int63n(1 << 40)
+					groups["render"] = append(groups["render"], sc)
+				}
+				return
+			}
+			for i := range rest {
+				nr := append(append([]string(nil), rest[:i]...), rest[i+1:]...)
+				perm(append(cur, rest[i]), nr)
+			}
+		}
+		perm(nil, triple)
+	}
 	// several instances of the same constructor alive at once, used side by side and inside one composite
-	for _, base := range []string{"file", "fileonly", "json", "string", "plainstring", "std", "zap", "logrus", "hclog", "slog", "asyncm", "quiet", "fromloggers"} {
+	for _, base := range []string{"file", "fileonly", "json", "string", "plainstring", "std", "zap", "logrus", "hclog", "slog", "asyncm", "quiet", "fromloggers", "logrquiet"} {
 		add(Scenario{Kind: "twin", Producers: 4 + 2*rng.Intn(3), Msgs: 20 + rng.Intn(20), Mix: "all", Members: []string{base}})
 		if base != "std" { // two std loggers in one composite legitimately write every line twice to the one stdout
 			add(Scenario{Kind: "twincomp", Producers: 2 + rng.Intn(5), Msgs: 20 + rng.Intn(20), Mix: "all", Members: []string{base}})
